@@ -1,10 +1,204 @@
 /-
-  MdModel.Walk.Layout — C04: calling-convention layouts (placeholder, filled in after C05).
+  MdModel.Walk.Layout — C04: generated call chains and the decidable precondition `Pre` under which
+  the walker must return exactly the generated chain.
+
+  A chain is the list of expected caller frames (`Exp`: return address, stack pointer, recovered
+  frame pointer). `Pre` states, per technique, what "laid out by the calling convention /
+  described by STACK CFI / findable only by scanning" means for a concrete (context, stack memory,
+  modules, symbol records) tuple. It is written in terms of memory words, range-table lookups and
+  the by-symbols validity of a word — NOT in terms of the unwinders (`byFp`, `byScan`, `evalCfi`,
+  `walk`), so that an agreement of model and code on a wrong chain cannot hide behind it.
+  The `chain` engine asks the driver to evaluate `Pre` on every generated case.
 -/
 import MdModel.Walk.Cfi
 namespace MdModel.Walk
 open MdModel
 
-def handleChain (_args : List String) : String := "bad-op"
+inductive Technique where
+  | fp | cfi | scan
+  deriving DecidableEq, Repr, Inhabited
+
+def Technique.ofStr : String → Option Technique
+  | "fp" => some .fp | "cfi" => some .cfi | "scan" => some .scan | _ => none
+
+/-- an expected caller frame -/
+structure Exp where
+  ret : Nat
+  sp : Nat
+  fp : Option Nat
+  deriving Repr, Inhabited
+
+def parseExp (s : String) : Option (List Exp) :=
+  if !s.startsWith "exp:" then none
+  else
+    let body := (s.drop 4).toString
+    if body = "-" then some []
+    else (body.splitOn "|").mapM fun f =>
+      match f.splitOn "," with
+      | [r, sp, fp, _, _] => do
+        let r ← r.toNat?
+        let sp ← sp.toNat?
+        let fp ← if fp = "-" then some none else fp.toNat?.map some
+        some { ret := r, sp := sp, fp := fp }
+      | _ => none
+
+/-- name under which the frame pointer lives in `Ctx.rest` -/
+def Arch.fpName : Arch → String
+  | .x86 => "ebp" | .amd64 => "rbp" | _ => "fp"
+
+/-- every pointer-sized word from `sp` to the end of the stack memory is zero (and `sp` is inside) -/
+def zerosFrom (mem : Mem) (ptr sp : Nat) : Bool :=
+  decide (mem.base ≤ sp) &&
+  (List.range ((mem.base + mem.size - sp) / ptr)).all fun j => mem.read (sp + j * ptr) ptr == some 0
+
+/-! ### frame-pointer chains -/
+
+/-- one frame-pointer record: the callee (stack pointer `sp`, frame pointer `fp`) was called from
+    a frame with return address `e.ret`, stack pointer `e.sp` and frame pointer `e.fp` -/
+def linkFp (a : Arch) (os : Os) (mask : Nat) (mem : Mem) (sp fp : Nat) (e : Exp) : Bool :=
+  let nfp := e.fp.getD 0
+  e.fp.isSome && decide (4096 ≤ e.ret) && decide (sp < e.sp) &&
+  match a with
+  | .x86 =>
+    decide (fp < U32MAX - 8) && mem.read (fp + 4) 4 == some e.ret && mem.read fp 4 == some nfp &&
+    decide (e.sp = fp + 8)
+  | .amd64 =>
+    -- non-Windows: the record is at `rbp`; Windows: at `rbp + 16k`, k ≤ 15 (slack ≤ 240 bytes),
+    -- every smaller probe position holding a zero "saved rbp"
+    let k := (e.sp - 16 - fp) / 16
+    decide (fp < U64MAX - 16) && decide (fp + 16 ≤ e.sp) && decide (e.sp = fp + 16 * k + 16) &&
+    (if os = .windows then decide (k ≤ 15) else decide (k = 0)) &&
+    (List.range k).all (fun j => mem.read (fp + 16 * j) 8 == some 0 && (mem.read (fp + 16 * j + 8) 8).isSome) &&
+    mem.read (e.sp - 8) 8 == some e.ret && mem.read (e.sp - 16) 8 == some nfp &&
+    decide (e.sp ≤ nfp) && (mem.read nfp 8).isSome && !nonCanonAmd64 e.ret && (mem.read e.sp 8).isSome &&
+    decide (e.sp ≤ U64MAX)
+  | .arm =>
+    decide (os = .ios) && decide (fp ≠ 0) && decide (fp < U32MAX - 8) &&
+    mem.read fp 4 == some nfp && mem.read (fp + 4) 4 == some e.ret && decide (e.sp = fp + 8)
+  | .arm64 | .arm64old =>
+    decide (fp ≠ 0) && decide (fp < U64MAX - 16) &&
+    mem.read fp 8 == some nfp && mem.read (fp + 8) 8 == some e.ret && decide (e.sp = fp + 16) &&
+    decide (nfp &&& mask = nfp) && decide (e.ret &&& mask = e.ret) && !nonCanonArm64 e.ret
+  | _ => false
+
+/-- the generated end of a frame-pointer chain: the outermost frame's record is `(0, 0)` and only
+    zero words follow up to the end of the stack memory -/
+def endFp (a : Arch) (os : Os) (mem : Mem) (sp fp : Nat) : Bool :=
+  decide (16 < mem.base) && zerosFrom mem a.ptr sp &&
+  match a with
+  | .x86 => mem.read fp 4 == some 0 && mem.read (fp + 4) 4 == some 0 && decide (fp < U32MAX - 8)
+  | .amd64 => mem.read fp 8 == some 0 && mem.read (fp + 8) 8 == some 0 && decide (fp < U64MAX - 16)
+  | .arm => decide (os = .ios) && mem.read fp 4 == some 0 && mem.read (fp + 4) 4 == some 0 && decide (fp < U32MAX - 8)
+  | .arm64 | .arm64old => mem.read fp 8 == some 0 && mem.read (fp + 8) 8 == some 0 && decide (fp < U64MAX - 16)
+  | _ => false
+
+def preFp (a : Arch) (os : Os) (mask : Nat) (mem : Mem) : Nat → Nat → List Exp → Bool
+  | sp, fp, [] => !mem.inRange sp || endFp a os mem sp fp
+  | sp, fp, e :: rest =>
+    mem.inRange sp && linkFp a os mask mem sp fp e && preFp a os mask mem e.sp (e.fp.getD 0) rest
+
+/-! ### scanning -/
+
+/-- one scanned frame: `k` junk words (small integers that are not valid instructions) above the
+    start of the scan, then the return address, a valid instruction -/
+def linkScan (env : Env) (a : Arch) (mem : Mem) (sp : Nat) (first : Bool) (e : Exp) : Bool :=
+  let p := a.ptr
+  -- MIPS32 skips the four argument words of every frame but the topmost
+  let start := if a = .mips32 ∧ !first then sp + 4 * p else sp
+  -- the windows of the property text, as literals (NOT the translated constants: a change of the
+  -- code's windows must show up as a failing chain, not move the precondition along)
+  let window := match a with
+    | .mips32 => if first then 256 else 252
+    | .mips64 => 128
+    | _ => if first then 160 else 40
+  let k := (e.sp - p - start) / p
+  decide (start + p ≤ e.sp) && decide (e.sp = start + k * p + p) && decide (k < window) &&
+  decide (e.sp ≤ a.regMax) && decide (4096 ≤ e.ret) &&
+  (List.range k).all (fun j =>
+    match mem.read (start + j * p) p with
+    | some w => decide (w < 4096) && !instrValid env a w
+    | none => false) &&
+  mem.read (start + k * p) p == some e.ret && instrValid env a e.ret
+
+def preScanFrom (env : Env) (a : Arch) (mem : Mem) : Nat → Bool → List Exp → Bool
+  | sp, _, [] => !mem.inRange sp || zerosFrom mem a.ptr sp
+  | sp, first, e :: rest =>
+    mem.inRange sp && linkScan env a mem sp first e && preScanFrom env a mem e.sp false rest
+
+/-- scanning is the only technique available: no CFI for any module (checked by the caller through
+    the symbol records), and the frame pointer of the context frame is 0 with nothing readable at
+    address 0 (on iOS ARM a zero frame pointer ends the walk instead) -/
+def preScan (env : Env) (a : Arch) (os : Os) (mem : Mem) (ctx : Ctx) (chain : List Exp) : Bool :=
+  decide (4096 ≤ mem.base) && ctx.valid.isNone && decide (ctx.raw a a.fpName = 0) &&
+  !(a = .arm && os = .ios) && preScanFrom env a mem ctx.sp true chain
+
+/-! ### canonical STACK CFI -/
+
+/-- `.cfa: $sp N + .ra: .cfa -W + ^ [fp: .cfa -2W + ^]` in the dumper's spelling for `a` -/
+def canonicalRule (a : Arch) (bytes : Nat) (savesFp : Bool) : String :=
+  let d := if a = .x86 ∨ a = .amd64 ∨ a.isMips then "$" else ""
+  let base := s!".cfa: {d}{a.spName} {bytes} + .ra: .cfa -{a.ptr} + ^"
+  if savesFp then s!"{base} {d}{a.fpName}: .cfa -{2 * a.ptr} + ^" else base
+
+/-- leaf rule of the first frame on ARM/ARM64/MIPS: `.cfa: sp 0 + .ra: lr` -/
+def leafRule (a : Arch) : String :=
+  if a.isMips then s!".cfa: $sp 0 + .ra: $ra" else s!".cfa: sp 0 + .ra: lr"
+
+/-- the STACK CFI record covering `instr`, through the module and CFI range tables -/
+def cfiRecordAt (w : World) (instr : Nat) : Option CfiRec :=
+  match moduleAt (modTable w.mods) instr with
+  | none => none
+  | some i =>
+    match w.mods[i]?, (w.syms[i]?).join with
+    | some m, some sf =>
+      if instr < m.base then none
+      else match RangeMap.get (cfiTable sf) (instr - m.base) with
+        | some j => sf.cfis[j]?
+        | none => none
+    | _, _ => none
+
+def linkCfi (w : World) (a : Arch) (mem : Mem) (instr sp fp lr : Nat) (first : Bool) (e : Exp) : Bool :=
+  let p := a.ptr
+  decide (4096 ≤ e.ret) && decide (e.sp ≤ a.regMax) && decide (e.ret ≤ a.regMax) &&
+  match cfiRecordAt w instr with
+  | none => false
+  | some rec =>
+    rec.adds.isEmpty &&
+    if first ∧ a.leafOk ∧ rec.init = leafRule a then
+      decide (e.sp = sp) && decide (e.ret = lr) && e.fp == some fp
+    else
+      let bytes := e.sp - sp
+      decide (sp < e.sp) && decide (p ≤ bytes) && mem.read (e.sp - p) p == some e.ret &&
+      (if rec.init = canonicalRule a bytes true then
+         decide (2 * p ≤ bytes) && mem.read (e.sp - 2 * p) p == e.fp && e.fp.isSome
+       else rec.init = canonicalRule a bytes false && e.fp == some fp)
+
+def preCfiFrom (w : World) (a : Arch) (os : Os) (mem : Mem) : Nat → Nat → Nat → Nat → Bool → List Exp → Bool
+  | instr, sp, fp, _, _, [] =>
+    -- the outermost frame: no CFI for it, a zero frame pointer, zeros up to the end of the stack
+    !mem.inRange sp ||
+      ((cfiRecordAt w instr).isNone && decide (fp = 0) && decide (16 < mem.base) && zerosFrom mem a.ptr sp)
+  | instr, sp, fp, lr, first, e :: rest =>
+    mem.inRange sp && linkCfi w a mem instr sp fp lr first e &&
+    preCfiFrom w a os mem (e.ret - a.adj) e.sp (e.fp.getD 0) 0 false rest
+
+def preCfi (w : World) (a : Arch) (os : Os) (mem : Mem) (ctx : Ctx) (chain : List Exp) : Bool :=
+  ctx.valid.isNone &&
+  preCfiFrom w a os mem ctx.ip ctx.sp (ctx.raw a a.fpName)
+    (ctx.raw a (if a.isMips then "ra" else "lr")) true chain
+
+/-- symbol files without any STACK CFI record -/
+def noCfi (w : World) : Bool :=
+  w.syms.all fun s => match s with
+    | some sf => sf.cfis.isEmpty
+    | none => true
+
+/-- **The precondition of the C04 theorems** for a generated case. -/
+def Pre (w : World) (env : Env) (a : Arch) (os : Os) (t : Technique) (mem : Mem) (ctx : Ctx) (chain : List Exp) : Bool :=
+  mem.range?.isSome &&
+  match t with
+  | .fp => noCfi w && ctx.valid.isNone && preFp a os env.mask mem ctx.sp (ctx.raw a a.fpName) chain
+  | .scan => noCfi w && preScan env a os mem ctx chain
+  | .cfi => preCfi w a os mem ctx chain
 
 end MdModel.Walk
